@@ -7,8 +7,11 @@ from harness.common import bud
 from harness.sessions import SB
 
 PROP = "C13"
-MODULES = ["CassisModel.Properties.C13", "CassisModel.Properties.C13Self"]
+MODULES = ["CassisModel.Properties.C13", "CassisModel.Properties.C13Self", "CassisModel.Properties.C13Perm"]
 THEOREMS = [
+    "Cassis.TS.merge_perm_one_super",
+    "Cassis.TS.merge_perm_leaf_compete",
+    "Cassis.TS.merge_grouping",
     "Cassis.TS.merge_consistent",
     "Cassis.TS.merge_contains_all",
     "Cassis.TS.merge_terminates",
@@ -23,7 +26,7 @@ THEOREMS = [
     "Cassis.TS.merge_empty_same",
 ]
 ASSUMPTIONS = [
-    "order/grouping independence is NOT proved (only stated): it is checked by exhaustive enumeration of all permutations and groupings over small pools and by random large pools (partial)",
+    "order independence is proved for declaration lists without competing supertypes (merge_perm_one_super) and with competing supertypes on names that have no declared subtypes (merge_perm_leaf_compete); grouping independence holds by construction of the model (merge works on the concatenated declarations; merge_grouping); the remaining case (re-parenting of a whole subtree) is checked by exhaustive enumeration of all permutations and groupings over small pools and by random large pools (partial)",
     "the registry order of the merged type system is not part of the model's contract (re-parented subtrees are moved to the end of the list); merged type systems are compared as name-keyed maps",
     "purity (inputs unmodified, no input object reachable from the result) is observed on the implementation: inputs are dumped before and after, and an object-identity walk is run on the result; in the functional model it holds by construction",
     "declarations of one feature that differ only in description or multiple-references flag are outside the claim",
@@ -437,7 +440,7 @@ def run(ctx, out, budget):
     pool2 = ["p.T0", "p.T1", "p.T2", "Annotation", "TOP", "q.Annotation"]
     big2 = [[random_tsd(rng, pool2, 2) for _ in range(rng.randint(2, 3))] for _ in range(bud(budget, 60, 1500))]
     run_groups(ctx, out, big2, "shortnames", exhaustive_perms=False)
-    out.partial = ["merge_perm_invariant (order/grouping independence): exhaustive small-pool correspondence only, no theorem"]
+    out.partial = ["order independence when a name with competing supertypes has declared subtypes: exhaustive small-pool correspondence only, no theorem"]
 
 
 M6_WITNESS = [
